@@ -431,6 +431,13 @@ pub fn parse_sarif(text: &str) -> Result<Vec<(String, String)>, String> {
 /// per-rule failed custom messages from a verbose record: rule name -> messages on FAIL value checks beneath it
 pub fn failed_messages_by_rule(record: &Value) -> BTreeMap<String, BTreeSet<String>> {
     fn walk(n: &Value, out: &mut BTreeSet<String>) {
+        // a clause that evaluated to PASS (a `some` clause satisfied by one of its values) holds per-value FAIL records,
+        // but the clause is not a failed check
+        if let Some(gc) = n.get("container").and_then(|c| c.get("GuardClauseBlockCheck")) {
+            if gc.get("status").and_then(|s| s.as_str()) == Some("PASS") {
+                return;
+            }
+        }
         if let Some(cvc) = n.get("container").and_then(|c| c.get("ClauseValueCheck")) {
             // every ClauseValueCheck other than "Success" records a failed check; its custom message sits at
             // a variant-dependent depth (Comparison.custom_message, Unary.value.custom_message, ...)
